@@ -159,6 +159,7 @@ def rich_prog(
     no_index: bool = False,
     flag_w: int = 4,
     sub_w: int = 2,
+    debug_w: int = 0,
 ) -> Dict[str, Any]:
     """no_index: the program will be called with twz_active as a nested DAG; then nothing inside it may index
     or unpack a node result (a deactivated result is None, and None[0] raises in plain Python as well)."""
@@ -219,12 +220,21 @@ def rich_prog(
         kinds = ["call"] * 5 + ["op"] * 2 + ["logic"]
         if depth > 0:
             kinds += ["sub"] * sub_w
+        kinds += ["debug"] * debug_w
         k = draw(st.sampled_from(kinds))
         if k == "op" and not env.leaves(_is_int):
             k = "call"
+        if k == "debug":
+            # a debug node: consumes values, nothing consumes it (it only runs when RUN_DEBUG_NODES is on)
+            fn = new_fn("term", debug=True)
+            dargs = [draw(_operand(env, cx))[0] for _i in range(draw(st.integers(0, 2)))]
+            body.append({"k": "call", "fn": fn, "site": cx.next_site(), "mark": True, "args": dargs, "kwargs": {},
+                         "active": None, "unpack": None, "tags": [], "out": out()})
+            cx.features.add("debug-node")
+            continue
         if k == "call":
             # reuse an existing function sometimes
-            reusable = [f for f, s in fns.items() if not s.get("setup") and s["kind"] in ("term", "int", "tup", "dict")
+            reusable = [f for f, s in fns.items() if not s.get("setup") and not s.get("debug") and s["kind"] in ("term", "int", "tup", "dict")
                         and not (no_index and s.get("unpack"))]
             if reusable and draw(st.integers(0, 3)) == 0:
                 fn = draw(st.sampled_from(reusable))
@@ -326,7 +336,7 @@ def rich_prog(
             sp = draw(rich_prog(cx=cx, depth=depth - 1, max_stmts=max(2, max_stmts // 2), flags=flags and not sub_flag,
                                 inner=True, resources=resources, setup_ok=setup_ok, attrs=attrs,
                                 allow_flag_stmts=allow_flag_stmts and not sub_flag, no_index=no_index or sub_flag,
-                                flag_w=flag_w, sub_w=sub_w))
+                                flag_w=flag_w, sub_w=sub_w, debug_w=debug_w))
             n_par = len(sp["params"])
             n_required = sum(1 for _n, d in sp["params"] if d is None)
             n_given = draw(st.integers(n_required, n_par))
@@ -382,7 +392,14 @@ def rich_prog(
             body.append({"k": "call", "fn": fn, "site": cx.next_site(), "mark": True, "args": [], "kwargs": {},
                          "active": None, "unpack": None, "tags": [], "out": o})
             pool = [(["v", o], TERM)]
-        e, t = draw(st.sampled_from(pool))
+        # `return inner(x)` / `return a_b` (an unpacked pair): a description-level container handed back whole
+        whole = [(e_, t_) for e_, t_ in env.vals if t_.desc and not t_.none and t_.kind in ("tup", "list", "dict")
+                 and all(not x.desc and not (inner and x.setupv) for x in (t_.elems.values() if t_.kind == "dict" else t_.elems))]
+        if whole and draw(st.sampled_from([True, False, False])):
+            e, t = draw(st.sampled_from(whole))
+            cx.features.add("ret-whole-container")
+        else:
+            e, t = draw(st.sampled_from(pool))
         ret, rtype = ["x", e], t
     else:
         n = draw(st.integers(1, 3))
